@@ -1,0 +1,26 @@
+//go:build verif
+
+// Package verifpoint marks schedule points for the verification harness
+// (/verif). With the build tag "verif" a test harness can install a function
+// that is called (and may block) whenever a marked point is reached.
+package verifpoint
+
+import "sync/atomic"
+
+var hook atomic.Pointer[func(string)]
+
+// Set installs f (nil removes it).
+func Set(f func(string)) {
+	if f == nil {
+		hook.Store(nil)
+		return
+	}
+	hook.Store(&f)
+}
+
+// At calls the installed function, if any.
+func At(name string) {
+	if f := hook.Load(); f != nil {
+		(*f)(name)
+	}
+}
